@@ -7,7 +7,7 @@ use crate::rattr::*;
 use crate::rtok::*;
 use serde_json::{Value, json};
 
-const RULE: &str = "every start tag '<T' + sequence of <=n pieces from {space, a, B, =, \"v\", 'v', v, /, \", ', <, e-acute} + '>' with T in {a, A, br, input, x-long-custom-element} (and, with <=2 pieces, 45 further names: every void element of the parser's list, case variants, near misses, ordinary names), in HTML, SVG and MathML context x encodings {UTF-8, windows-1252, Shift_JIS (with a character whose trail byte is an ASCII capital)} x {single write, every cut inside the tag}; oracle: tag_name / preserve-case name / attributes() (order, names, raw values, valueless = \"\") / get_attribute+has_attribute (ASCII case-insensitive, first duplicate) / is_self_closing / can_have_content / namespace_uri == R-attr (WHATWG attribute states) + void list + context, and == html5ever's tag token where defined; then every single set_attribute / remove_attribute / set_tag_name followed by a re-read; non-trivial = distinct tags with >=1 attribute";
+const RULE: &str = "every start tag '<T' + sequence of <=n pieces from {space, a, B, =, \"v\", 'v', v, /, \", ', <, e-acute} + '>' with T in {a, A, br, input, x-long-custom-element} (and, with <=2 pieces, 45 further names: every void element of the parser's list, case variants, near misses, ordinary names), in HTML, SVG and MathML context (also inside integration points and after a closed nested svg/math root) x encodings {UTF-8, windows-1252, Shift_JIS (with a character whose trail byte is an ASCII capital)} x {single write, every cut inside the tag}; oracle: tag_name / preserve-case name / attributes() (order, names, raw values, valueless = \"\") / get_attribute+has_attribute (ASCII case-insensitive, first duplicate) / is_self_closing / can_have_content / namespace_uri == R-attr (WHATWG attribute states) + void list + context, and == html5ever's tag token where defined; then every single set_attribute / remove_attribute / set_tag_name followed by a re-read; non-trivial = distinct tags with >=1 attribute";
 
 const PIECES: &[&str] = &[" ", "a", "B", "=", "\"v\"", "'v'", "v", "/", "\"", "'", "<", "\u{e9}"];
 /// The first DEEP_NAMES names get every piece sequence up to the bound; the others (every void
@@ -19,7 +19,17 @@ const NAMES: &[&str] = &[
     "basefon", "bgsounds", "sources", "tracks", "wb", "col1", "params", "keygens", "hr1", "imgs", "metas", "links", "embeds", "areas", "bases",
 ];
 const DEEP_NAMES: usize = 5;
-const CONTEXTS: &[(&str, &str, Ns)] = &[("", "", Ns::Html), ("<svg>", "</svg>", Ns::Svg), ("<math>", "</math>", Ns::MathMl), ("<svg><desc>", "</desc></svg>", Ns::Html)];
+const CONTEXTS: &[(&str, &str, Ns)] = &[
+    ("", "", Ns::Html),
+    ("<svg>", "</svg>", Ns::Svg),
+    ("<math>", "</math>", Ns::MathMl),
+    ("<svg><desc>", "</desc></svg>", Ns::Html),
+    // after a nested root of the same namespace has been closed
+    ("<svg><svg><g/></svg>", "</svg>", Ns::Svg),
+    ("<math><math><mrow/></math>", "</math>", Ns::MathMl),
+    ("<math><mi>", "</mi></math>", Ns::Html),
+    ("<svg><desc></desc>", "</svg>", Ns::Svg),
+];
 const LOOKUPS: &[&str] = &["a", "A", "b", "v", "\u{e9}", "zz"];
 
 fn decode(enc: &'static encoding_rs::Encoding, b: &[u8]) -> String {
@@ -311,7 +321,7 @@ pub fn run_check(ctx: &Ctx) -> i32 {
         }
     });
     if !ctx.capped.load(std::sync::atomic::Ordering::Relaxed) {
-        ctx.level_done(&format!("5 tag names x pieces<={max} (and {} further names: every void element, case variants, near misses, ordinary names x pieces<=2) x 4 contexts x 3 encodings x every cut inside the tag; 9 edits + re-read up to pieces<={}", NAMES.len() - DEEP_NAMES, if max > 3 { max - 1 } else { max }));
+        ctx.level_done(&format!("5 tag names x pieces<={max} (and {} further names: every void element, case variants, near misses, ordinary names x pieces<=2) x 8 contexts x 3 encodings x every cut inside the tag; 9 edits + re-read up to pieces<={}", NAMES.len() - DEEP_NAMES, if max > 3 { max - 1 } else { max }));
     }
     ctx.finish(
         "model_checking",
